@@ -725,6 +725,12 @@ func (tic *TermInCommittee) validateViewChangeVotes(targetBlockHeight primitives
 			return fmt.Errorf("confirmation of memberId %s has view %d which is different than targetView %d ",
 				senderMemberIdStr, confirmationView, targetView)
 		}
+		if confirmation.SignedHeader().MessageType() != protocol.LEAN_HELIX_VIEW_CHANGE {
+			return fmt.Errorf("confirmation of memberId %s has message type %v", senderMemberIdStr, confirmation.SignedHeader().MessageType())
+		}
+		if err := tic.keyManager.VerifyConsensusMessage(confirmationBlockHeight, confirmation.SignedHeader().Raw(), confirmation.Sender()); err != nil {
+			return errors.Wrapf(err, "confirmation of memberId %s has an invalid signature", senderMemberIdStr)
+		}
 		if set[senderMemberIdStr] {
 			return fmt.Errorf("memberId %s appears in more than one confirmation", senderMemberIdStr)
 		}
